@@ -50,10 +50,10 @@ CHECKS = {
     ),
     "C15": dict(
         category="proof",
-        text="partial. Proved in Lean 4 (no sorry; axioms propext/Classical.choice/Quot.sound) about a hand-written model of /repo/bayesnet: the flat index table[row + i*rows] of the `table` notation addresses P(child = i | row-th parent combination in itertools.product order); whatever mix of default/table/entries is given, an accepted CPT - and an accepted file (assembleNet) - has exactly one row per parent combination, each of the child's domain size and summing to 1 within the tolerance; the table, the per-entry (any order, any redundancy) and the default+entries notations of one conditional probability function import the same table; for a well-formed network (rows sum to exactly 1) and a validated topological order, one iteration of the generated if/elif/else program started in ANY state ends in a full assignment a with probability prod CPT entries (pointwise) and E g = sum_a joint(a) g(a) for every g of the network variables, hence the joint table sums to 1; the ratio E((x*ind)^k)/E(ind) the exact-inference query asks for equals E(X^k | evidence) for k >= 1 (k = 0 is a proved counterexample, finding F32); E(count)(n) of the sampling-time program equals the recurrence countSeq, countSeq q n = (1-(1-q)^(n+1))/q for q != 0 and tends to 1/q for 0 < q <= 1. Tied to the code differentially on seeded BIF files (valid / rows-within-tolerance / reserved names / single and double structural faults / syntax faults) and the repository's .bif files: BifParser().parse_file vs assembleNet (tables, parents, class of the first error); the text of CodeGenerator.generate_code read by the shared reference semantics vs the joint table; the real CLI action (--exact_inference, --sample_time_until) vs enumeration (final value and per-iteration moments n = 0..3). NOT proved: that Kahn's order as coded is topological (a decidable check isTopo is evaluated by the model on every network instead), the lark grammar, the random digits appended on name collisions (checked by rule), Python float summation at the tolerance edge (generator keeps 1e-9 away), and Polar's analysis pipeline itself (C01).",
+        text="partial. Proved in Lean 4 (no sorry; axioms propext/Classical.choice/Quot.sound) about a hand-written model of /repo/bayesnet: the flat index table[row + i*rows] of the `table` notation addresses P(child = i | row-th parent combination in itertools.product order); whatever mix of default/table/entries is given, an accepted CPT - and an accepted file (assembleNet) - has exactly one row per parent combination, each of the child's domain size and summing to 1 within the tolerance; the table, the per-entry (any order, any redundancy) and the default+entries notations of one conditional probability function import the same table; Kahn's sort as coded returns a permutation with parents first whenever its final assertion holds (topoOrder_isTopo); for a well-formed network (rows sum to exactly 1) on which the generator does not fail, one iteration of the generated if/elif/else program started in ANY state ends in a full assignment a with probability prod CPT entries (pointwise) and E g = sum_a joint(a) g(a) for every g of the network variables, hence the joint table sums to 1; the ratio E((x*ind)^k)/E(ind) the exact-inference query asks for equals E(X^k | evidence) for k >= 1 (k = 0 is a proved counterexample, finding F32); E(count)(n) of the sampling-time program equals the recurrence countSeq, countSeq q n = (1-(1-q)^(n+1))/q for q != 0 and tends to 1/q for 0 < q <= 1. Tied to the code differentially on seeded BIF files (valid / rows-within-tolerance / reserved names / single and double structural faults / syntax faults) and the repository's .bif files: BifParser().parse_file vs assembleNet (tables, parents, class of the first error); the text of CodeGenerator.generate_code read by the shared reference semantics vs the joint table; the real CLI action (--exact_inference, --sample_time_until) vs enumeration (final value and per-iteration moments n = 0..3). NOT proved: the lark grammar, the random digits appended on name collisions (checked by rule), Python float summation at the tolerance edge (generator keeps 1e-9 away), and Polar's analysis pipeline itself (C01).",
         design_ref="§4 C15; notes/C15.md",
         note="Trusted: Lean kernel + propext/Classical.choice/Quot.sound; Lean compiler for polar-model; harness/c15gen.py (BIF generator, printer and reader, reader of the generated Polar text), exact-decimal reading of printed floats, sympy exact evaluation of Polar's closed forms at integers, Polar/Sem.lean reference semantics for the law of the generated text. Time-outs of Polar's recurrence builder on networks with many 4-valued parents are counted, never violations. Known findings: F30 (sampling-time limit not taken), F31 (sanitised names that are reserved words), F32 (target power 0), F33 (remainder probability in binary floating point).",
-        technique="Lean 4 proof (mixed-radix index, assembly invariants, path-probability induction along a topological order, partition of outcome lists, geometric sum and limit) + differential correspondence of parser, code generator and both queries against the Lean model and the enumerated joint law",
+        technique="Lean 4 proof (mixed-radix index, assembly invariants, invariant proof of Kahn's algorithm, path-probability induction along a topological order, partition of outcome lists, geometric sum and limit) + differential correspondence of parser, code generator and both queries against the Lean model and the enumerated joint law",
     ),
 }
 
@@ -85,6 +85,16 @@ CHECKS.update({
         design_ref="§4 C05",
         note="Trusted: Lean kernel/compiler, AST conversion. User-declared types are hypotheses.",
         technique="Lean reference semantics as reachability oracle (differential correspondence)",
+    ),
+})
+
+CHECKS.update({
+    "C17": dict(
+        category="proof",
+        text="Each sampled program is analysed by the real pipeline under nine settings (cond2arithm, categorical expansion, both, forced cyclic solver, declared types with inference disabled, fixed-point budget 1, numeric_croots, numeric_roots); every goal that succeeds under a setting is compared at n=0..5 with the exact expectation of the Lean reference semantics (so all succeeding settings agree pairwise); results flagged exact must be exactly equal, numeric-root results must be flagged rounded and lie within a tolerance. The for-all-n extension of a sampled instance is C04's verified validator. Partial: no universal theorem about the option code paths yet; the precision clause is a tolerance test.",
+        design_ref="§4 C17",
+        note="Trusted: Lean kernel/compiler (reference semantics), sympy exact evaluation of closed forms. 'One side refuses' is recorded, not judged.",
+        technique="differential correspondence of the option matrix against a Lean reference semantics",
     ),
 })
 
